@@ -222,6 +222,14 @@ def check_replay(ck, fn, info, stable):
             ck.violation("REPLAY-TABLE", fn.qname, sig,
                          "challenger is strictly smaller than the stored loser but is left behind (%s)" % dtable.fmt_val(v), fn.nloc(loop))
             viol = True
+        if not info["guarded"] and not stable and not A and not B and did:
+            # unguarded trees pad the leaves with copies of the sentinel, which may equal a live key; without a `sup` flag or a
+            # source tie-break the only thing that keeps a padding entry from winning is that ties never displace the challenger
+            ck.violation("REPLAY-TABLE", fn.qname, sig + ":padding-tie",
+                         "on equal keys the stored entry displaces the challenger (%s): in an unguarded tree the stored entry can be a padding "
+                         "leaf holding a copy of the sentinel, and the sentinel may equal a live key - the padding entry then reaches the root and "
+                         "min_source() reports a non-existent player" % dtable.fmt_val(v), fn.nloc(loop))
+            viol = True
         if did:
             need = set(fields)
             if "sup" in need and S == L:
